@@ -17,6 +17,9 @@ import traceback
 from . import core
 
 
+CORPUS_SPEC = {'kind': '__corpus__'}      # the replay tier runs in a worker too: capped memory, fresh process
+
+
 def _worker(args):
     modname, spec, seed, tier = args
     t0 = time.time()
@@ -30,7 +33,10 @@ def _worker(args):
     mod = None
     try:
         mod = importlib.import_module(modname)
-        acc = mod.run_shard(spec, seed, tier)
+        if spec == CORPUS_SPEC:
+            acc = _corpus_shard(mod, modname.rsplit('.', 1)[1].upper())
+        else:
+            acc = mod.run_shard(spec, seed, tier)
         if not isinstance(acc, core.Acc):
             raise core.HarnessError('run_shard returned %r' % type(acc))
     except MemoryError as e:
@@ -101,6 +107,11 @@ def main(argv=None):
     known = core.known_buckets(pid)
 
     if a.replay:
+        try:
+            import resource      # a replayed case runs in this process: same cap as a shard worker
+            resource.setrlimit(resource.RLIMIT_AS, (2 * 1024 ** 3, 2 * 1024 ** 3))
+        except Exception:
+            pass
         with open(a.replay) as fh:
             rec = json.load(fh)
         out = mod.check_case(rec['case'])
@@ -119,13 +130,7 @@ def main(argv=None):
     if a.only:
         specs = [s for s in specs if a.only in json.dumps(s, default=str)]
     total = core.Acc()
-    try:
-        total.merge(_corpus_shard(mod, pid))
-    except Exception as e:
-        traceback.print_exc()
-        print('HARNESS-ERROR property=%s corpus replay: %s' % (pid, e))
-        return 2
-    tasks = [(modname, s, seed, a.tier) for s in specs]
+    tasks = [(modname, s, seed, a.tier) for s in [CORPUS_SPEC] + specs]
     if a.jobs <= 1 or len(tasks) <= 1:
         results = map(_worker, tasks)
     else:
